@@ -819,6 +819,26 @@ pub fn search(name: &str, seed: u64) -> Value {
             for (d, e) in cases.iter() { if let Some(v) = chk_repl(d, e) { return v; } }
             nf("13 REPL sessions (arithmetic, recursion, inline, assign destructuring of 3/4/nested patterns, rest args, @ capture, constants, let/let*) reduce to the constant the compiled cl21 program returns")
         }
+        "classic_meaning" => {
+            // programs without a dialect sigil go through the classic (CLVM-hosted) compiler
+            let cases: Vec<(&str, &str, &str)> = vec![
+                ("(mod (X) (defun ff1 (A) (* A 2)) (ff1 (+ X 1)))", "(3)", "8"),
+                ("(mod (X Y) (defun-inline g (A B) (- A B)) (g X Y))", "(10 3)", "7"),
+                ("(mod ((A B) . C) (list A B C))", "((1 2) . 3)", "(1 2 3)"),
+                ("(mod (X) (defun fact (N) (if (= N 1) 1 (* N (fact (- N 1))))) (fact X))", "(5)", "120"),
+                ("(mod (X) (defmacro dbl (A) (qq (+ (unquote A) (unquote A)))) (dbl (* X 3)))", "(2)", "12"),
+                ("(mod (X) (defconstant K 5) (defun-inline addk (A) (+ A K)) (addk (addk X)))", "(1)", "11"),
+                ("(mod (A B C D E F G H I J) (defun pick (A B C D E F G H I J) (list J I (+ A J) (* B I))) (pick A B C D E F G H I J))", "(1 2 3 4 5 6 7 8 9 10)", "(10 9 11 18)"),
+                ("(mod (L) (defun len (L) (if L (+ 1 (len (r L))) 0)) (defun sum (L) (if L (+ (f L) (sum (r L))) 0)) (c (len L) (sum L)))", "((1 2 3))", "(3 . 6)"),
+            ];
+            for (b, at, ex) in cases.iter() {
+                if let Some(mut v) = chk_meaning(b, None, at, ex) { v["input"] = json!({"program": b, "dialect": "classic", "args": at}); return v; }
+                let (b2, a2, e2) = (b.to_string(), at.to_string(), ex.to_string());
+                let r = catch_unwind(move || { let got = compile_and_run(&b2, true, &a2); let mut a = clvmr::Allocator::new(); let want = chialisp::classic::clvm_tools::binutils::assemble(&mut a, &e2).ok().and_then(|n| clvmr::serde::node_to_bytes(&a, n).ok()); (got, want) });
+                match r { Ok((Ok(g), w)) if g == w => {}, Ok((g, w)) => return hit(json!({"program": b, "dialect": "classic -O", "args": at}), format!("{} ({:?})", ex, w), format!("{:?}", g), "classic compile with optimisation + clvmr run"), Err(_) => return hit(json!({"program": b}), "no panic".into(), "panic".into(), "classic compile panicked") }
+            }
+            nf("8 programs compiled by the classic compiler (plain and optimised) return the hand-computed values (which the cl21 build also returns, see source_meaning)")
+        }
         "source_meaning" => {
             for (b, at, ex) in meaning_cases() { for d in [Some("*standard-cl-21*"), Some("*standard-cl-23*")] {
                 if skipped(&json!({"program": b, "dialect": d, "args": at})) { continue; }
